@@ -91,7 +91,7 @@ def check_case(case, stats=None, K=oracle.K_QUICK, known=None):
             sig, extra = oracle.attribute(res, es, case["pool"], compare.vm_budget(it.steps), K)
             if tm.clobbers and (sig is None or sig.startswith("C07:fallthrough")):
                 # the expected fall-through (F-D1) hides the register clobber that explains the difference
-                sig, extra = oracle.clobber_signature(tm.clobbers[0]), {"clobber": tm.clobbers[0]}
+                sig, extra = oracle.clobber_signature(tm.clobbers[0], v["instructions"]), {"clobber": tm.clobbers[0]}
             if sig and sig.startswith("C04:clobber"):
                 sig += oracle.clobber_shape_suffix(srcs, sig, (extra or {}).get("clobber"))
             if sig is None or sig.startswith("C07:fallthrough"):
